@@ -101,6 +101,52 @@ def gen_sorted_then_projected(rng):
     return p
 
 
+def gen_restricted(rng):
+    """An operation whose expression nests engine-restricted functions: an outer function that declares support for
+    the engine explicitly around an inner one that does not (must be refused), and the harmless nestings (must be
+    accepted and then execute).  The restricted functions exist only in the engines said to support them."""
+    counter = [0]
+    if rng.random() < 0.6:
+        p, cols, _o = sp.gen_sqlprog(rng, rng.choice([0, 1, 2]), counter, allow_binary=False)
+        me, other = (False, True), (True, False)
+    else:
+        p = mp.gen_leaf(rng, 1, None, ("it", 0), special=0, loose=0)
+        cols = p[3]
+        if rng.random() < 0.5 and cols:
+            p = ("un", ("sel", ("cmp", "ge", ("ref", sorted(cols)[0]), ("lit", 0))), mp.DEFAULT, p)
+        me, other = (True, False), (False, True)
+    cols = sorted(cols)
+    if not cols:
+        return None
+    c = ("ref", rng.choice(cols))
+    both = (True, True)
+    S = lambda fl, x: ("supp", fl[0], fl[1], x)  # noqa: E731
+    e = rng.choice([
+        S(me, S(other, c)), S(both, S(other, c)), S(me, ("add", S(other, c), ("lit", 1))), S(both, ("neg", S(other, c))),
+        S(other, S(me, c)), S(other, S(both, c)),
+        S(both, S(me, c)), S(me, S(both, c)), ("add", S(me, c), S(both, c)), S(me, ("add", S(me, c), ("lit", 2))),
+    ])
+    kind = rng.choice(["calc", "sel", "sort"])
+    if kind == "calc":
+        o = ("calc", gen.fresh_tag(rng, set(cols)), e)
+    elif kind == "sel":
+        o = ("sel", ("cmp", "lt", e, ("lit", 2)))
+    else:
+        o = ("sort", [(e, rng.random() < 0.5)])
+    return ("un", o, mp.DEFAULT, p)
+
+
+def run_mp(p):
+    w, rel, res = mp.run_build(p)
+    if rel is None:
+        return {"phase": "construction", "error": res[1], "tree": res}
+    try:
+        mp.execute(w, rel)
+    except Exception as e:  # noqa: BLE001
+        return {"phase": "execute", "error": f"{type(e).__name__}: {str(e)[:160]}", "tree": res}
+    return {"phase": "ok", "tree": res}
+
+
 def run_sql(p):
     w, rel, res = mp.run_build(p)
     if rel is None:
@@ -148,6 +194,12 @@ def run(ctx):
         if i < len(corpus):
             p = corpus[i]
             out = run_sql(p)
+            prog_json, key = jsonable(p), mp.cprog(p)
+        elif i % 10 == 7:
+            p = gen_restricted(rng)
+            if p is None:
+                continue
+            out = run_mp(p)
             prog_json, key = jsonable(p), mp.cprog(p)
         elif i % 3 == 2:
             p, _ = ip.gen_prog(rng, rng.choice([1, 2, 4, 6, 9]))
